@@ -81,6 +81,42 @@ T.any = (T.bool | T.int | T.float | T.decimal | T.str | T.bytes | T.bytearray | 
          | T.dt_aware | T.struct_time | T.dict | T.list | T.tuple | T.none | T.foreign)
 
 
+STANDARD_LABELS = {m[0] for m in T.any.makers}
+
+
+def type_label(v):
+    """The type class (a label of T.any) of a run-time value, symbolic or concrete; None when it cannot be told."""
+    import datetime as _dt
+    import decimal as _dec
+    import time as _time
+    if v is None:
+        return 'None'
+    if isinstance(v, (SBool, bool)):
+        return 'bool'
+    if isinstance(v, (SInt, int)):
+        return 'int'
+    if isinstance(v, (SFloat, float)):
+        return 'float'
+    if isinstance(v, (SStr, str)):
+        return 'str'
+    if isinstance(v, SBytes):
+        return 'bytearray' if v.mutable else 'bytes'
+    if isinstance(v, (bytes, bytearray)):
+        return type(v).__name__
+    if isinstance(v, SOpaque):
+        return {'decimal': 'Decimal', 'datetime_naive': 'datetime-naive', 'datetime_aware': 'datetime-aware',
+                'struct_time': 'struct_time', 'dict': 'dict', 'list': 'list', 'tuple': 'tuple', 'foreign': 'foreign'}.get(v.kind)
+    if isinstance(v, _dec.Decimal):
+        return 'Decimal'
+    if isinstance(v, _dt.datetime):
+        return 'datetime-naive' if v.tzinfo is None else 'datetime-aware'
+    if isinstance(v, _time.struct_time):
+        return 'struct_time'
+    if isinstance(v, (dict, list, tuple)):
+        return type(v).__name__
+    return None
+
+
 def not_types(*labels):
     return TSpec([m for m in T.any.makers if m[0] not in labels])
 
@@ -126,7 +162,9 @@ class Contract:
     def __init__(self, target, params, cases, requires=None, reads=(), modifies=(), inline=(),
                  loops=None, selector=None, name=None, pure=True, setup=None, trusted=False, doc='',
                  bounded=True, complete=False, view=None, views=None, check_cases=None, fallback=None,
-                 bounded_only=False):
+                 bounded_only=False, established_by=None, selector_bound=None):
+        self.selector_bound = selector_bound   # like selector, but on the arguments after binding keywords and defaults
+        self.established_by = established_by   # trusted views only: reg -> names of the verified contracts it is a union / weakening of
         self.bounded_only = bounded_only  # outside the executor's subset by nature: only the bounded run-time stand-in
         #                                   (labelled bounded in the evidence, never an obligation, never 'discharged')
         self.fallback = fallback        # weakest clause (subsumes all others): used once the path is 'garbled'
@@ -163,6 +201,18 @@ class Contract:
         bound = bind_args(fn, args, kwargs)
         ctx = Ctx(st, bound, ip)
         self.fill_reads(ctx, ip)
+        # the contract was verified for arguments of the listed type classes only: an actual argument of another class
+        # is outside what was proved about the callee (undecided at the caller, never silently assumed)
+        for pname, spec in self.params:
+            labels = {m[0] for m in spec.makers}
+            if getattr(spec, 'optional', False):
+                labels = labels | {'None'}
+            if pname in bound and labels <= STANDARD_LABELS:
+                for v in ([] if isinstance(bound[pname], SCond) else [bound[pname]]):
+                    lab = type_label(v)
+                    if lab is not None and lab not in labels:
+                        raise OutOfSubset('argument %s of %s is a %s: the contract was verified for %s only'
+                                          % (pname, self.name, lab, sorted(labels)))
         if self.requires is not None:
             req = self.requires(ctx)
             st.oblige('%s#requires@callsite' % self.name, req)
@@ -271,7 +321,7 @@ class Registry:
         self.by_fn.setdefault(c.fn(), []).append(c)
         return c
 
-    def lookup(self, fn, args, views=None):
+    def lookup(self, fn, args, views=None, kwargs=None):
         want = None
         if views:
             from .interp import qualname
@@ -282,8 +332,15 @@ class Registry:
         for c in self.by_fn.get(fn, ()):
             if c.view != want:
                 continue
-            if c.selector is None or c.selector(fn, args):
-                return c
+            if c.selector is not None and not c.selector(fn, args):
+                continue
+            if c.selector_bound is not None:
+                try:
+                    if not c.selector_bound(bind_args(fn, args, kwargs)):
+                        continue
+                except Raised:
+                    continue
+            return c
         return None
 
     def has(self, fn):
@@ -511,7 +568,7 @@ class Verifier:
     def verify(self, c, only=None):
         """All obligations of contract c: returns (results, stats)."""
         results = []
-        stats = {'paths': 0, 'queries': 0, 'instances': 0, 'cases_hit': set(), 'out_of_subset': []}
+        stats = {'paths': 0, 'queries': 0, 'instances': 0, 'cases_hit': set(), 'out_of_subset': [], 'callees': set()}
         if c.trusted or c.bounded_only:
             return results, stats
         for label, combo in self.instances(c):
@@ -595,6 +652,8 @@ class Verifier:
                 work.extend(st.pending)
             stats['paths'] += 1
             stats['queries'] += st.n_queries
+            stats.setdefault('callees', set()).update(ip.called)
+            stats.setdefault('auto_inlined', set()).update(ip.auto_inlined)
             # in-path obligations (callee preconditions, loop invariants ...)
             for (oname, res) in getattr(st, 'checked', []):
                 res.name = '%s#%s' % (pname, oname)
